@@ -22,7 +22,8 @@ def worker(job):
             # sometimes with a lysine in front), so that Sec termination meets the start node, the
             # Met-removed twin and the length limits
             gen_ref.make_reference(case, seed, rng.choice([1, 2, 3]),
-                                   sec_near_start=rng.choice([0.0, 0.6, 1.0]))
+                                   sec_near_start=rng.choice([0.0, 0.6, 1.0]),
+                                   sec_lys=rng.choice([0.0, 0.0, 0.7]))
             genome, anno, proteome = gen_ref.load_reference(case)
         kw = dict(cleavage_rule='trypsin', cleavage_exception=rng.choice([None, None, 'auto']),
                   miscleavage=rng.choice([0, 1, 2, 2, 3]), min_mw=rng.choice([300., 500., 800.]),
@@ -139,7 +140,7 @@ def run(ctx: common.Ctx):
         'flag pairs (SECT, W2F) in {(1,1),(1,0),(0,1)}; real callAltTranslation peptide set must '
         'EQUAL the union over coding transcripts of Spec.altTranslationPeptides (Lean driver); every '
         'header entry must name a SECT-/W2F- event allowed by the flags. non-trivial = >= 1 peptide')
-    n = ctx.n(160, 3000)
+    n = ctx.n(420, 4000)
     jobs = [(ctx.rng('job', i).randrange(1 << 30), ctx.tier) for i in range(n)]
     with mp.get_context('fork').Pool(14) as pool:
         res = pool.map(worker, jobs)
